@@ -110,3 +110,20 @@ Qed.
 (* non-vacuity: a quarter turn about the third axis is a rotation *)
 Example quarter_turn_is_rotation : is_rotation ((0, -1, 0), (1, 0, 0), (0, 0, 1)).
 Proof. unfold is_rotation, det3, r_sumsq3, sumsq3, dot, r_cross, cross. repeat split; ring. Qed.
+
+(* ---- joint draws: every event receives one sample per column of its own block of draws, and its samples are a
+   function of that block alone (replacing the draws of the other events changes nothing) *)
+From Coq Require Import List.
+Theorem joint_draw_counts (D S : Type) (f : D -> S) blocks :
+  length (joint_draw f blocks) = length blocks /\
+  forall e, length (nth e (joint_draw f blocks) nil) = length (nth e blocks nil).
+Proof.
+  unfold joint_draw. split; [apply map_length|]. intros e.
+  change (@nil S) with (map f nil). rewrite map_nth. apply map_length.
+Qed.
+
+Theorem joint_draw_own_block (D S : Type) (f : D -> S) blocks blocks' e :
+  nth e blocks nil = nth e blocks' nil -> nth e (joint_draw f blocks) nil = nth e (joint_draw f blocks') nil.
+Proof.
+  unfold joint_draw. intros H. change (@nil S) with (map f nil). rewrite !map_nth, H. reflexivity.
+Qed.
